@@ -4,6 +4,7 @@ package main
 
 import (
 	"context"
+	"errors"
 	"fmt"
 	"sort"
 	"strings"
@@ -11,9 +12,25 @@ import (
 
 	"deps.dev/util/resolve"
 	"deps.dev/util/resolve/dep"
+	"deps.dev/util/resolve/version"
 
 	"verifharness/sx"
 )
+
+// purityAttrs renders a version's attribute set with every key probed explicitly.
+func purityAttrs(a version.AttrSet) string {
+	var b strings.Builder
+	b.WriteString(a.String())
+	for k := -8; k <= 24; k++ {
+		if k == 0 {
+			continue
+		}
+		if v, ok := a.GetAttr(version.AttrKey(k)); ok {
+			fmt.Fprintf(&b, "#%d=%q", k, v)
+		}
+	}
+	return b.String()
+}
 
 // purityType renders a dependency type with every attribute key probed explicitly (String
 // and Compare need not show all of them: a key written into shared storage must be seen).
@@ -35,7 +52,11 @@ func purityType(t dep.Type) string {
 // graphText renders a canonicalised graph as sorted tuples (never DeepEqual).
 func graphText(g *resolve.Graph, err error) string {
 	if err != nil {
-		return "RESOLVE-ERROR"
+		// the KIND of failure is part of the answer (never its text)
+		if errors.Is(err, resolve.ErrNotFound) {
+			return "RESOLVE-ERROR notfound"
+		}
+		return "RESOLVE-ERROR other"
 	}
 	if cerr := g.Canon(); cerr != nil {
 		return "CANON-ERROR"
@@ -71,13 +92,13 @@ func snapshot(lc *resolve.LocalClient, sys resolve.System, u sx.V) string {
 		vs, err := lc.Versions(ctx, pk)
 		fmt.Fprintf(&b, "P %s err=%v:", pk.Name, err != nil)
 		for _, v := range vs {
-			fmt.Fprintf(&b, " %s%s", v.Version, v.AttrSet.String())
+			fmt.Fprintf(&b, " %s%s", v.Version, purityAttrs(v.AttrSet))
 		}
 		b.WriteByte('\n')
 		for _, ve := range p.List()[1:] {
 			vk := resolve.VersionKey{PackageKey: pk, VersionType: resolve.Concrete, Version: ve.Nth(0).Str()}
 			v, err := lc.Version(ctx, vk)
-			fmt.Fprintf(&b, " V %s err=%v %s\n", vk.Version, err != nil, v.AttrSet.String())
+			fmt.Fprintf(&b, " V %s err=%v %s\n", vk.Version, err != nil, purityAttrs(v.AttrSet))
 			rs, err := lc.Requirements(ctx, vk)
 			fmt.Fprintf(&b, " R err=%v:", err != nil)
 			for _, r := range rs {
@@ -193,37 +214,55 @@ func init() {
 				bad("differs-by-insertion-order", i, firstDiff(seq[i], t))
 			}
 		}
-		// concurrent resolutions over one client
+		// concurrent resolutions over one client: all goroutines are released together from one barrier and
+		// each resolves ALL roots twice in its own rotation, so that calls really overlap; run once on
+		// a client loaded in the original order and once on the one loaded in the permuted order
 		if ng > 0 && len(roots) > 0 {
-			lcD := buildClient(sys, u)
-			shared := newResolver(sys, lcD)
-			res := make([]string, ng)
-			var wg sync.WaitGroup
-			for k := 0; k < ng; k++ {
-				wg.Add(1)
-				go func(k int) {
-					defer wg.Done()
-					defer func() {
-						if r := recover(); r != nil {
-							res[k] = "PANIC"
-						}
-					}()
-					r := shared
-					if sys == resolve.PyPI {
-						r = newResolver(sys, lcD) // one resolver per goroutine over a shared client
-					}
-					g, err := r.Resolve(ctx, roots[k%len(roots)])
-					res[k] = graphText(g, err)
-				}(k)
-			}
-			wg.Wait()
-			for k := 0; k < ng; k++ {
-				if res[k] != seq[k%len(roots)] {
-					bad("differs-when-concurrent", k%len(roots), firstDiff(seq[k%len(roots)], res[k]))
+			for which, uu := range []sx.V{u, up} {
+				lcD := buildClient(sys, uu)
+				shared := newResolver(sys, lcD)
+				type ans struct {
+					root int
+					text string
 				}
-			}
-			if sd := snapshot(lcD, sys, u); sd != s0 {
-				bad("client-changed-by-concurrent-resolve", 0, firstDiff(s0, sd))
+				res := make([][]ans, ng)
+				start := make(chan struct{})
+				var wg sync.WaitGroup
+				for k := 0; k < ng; k++ {
+					wg.Add(1)
+					go func(k int) {
+						defer wg.Done()
+						defer func() {
+							if r := recover(); r != nil {
+								res[k] = append(res[k], ans{0, "PANIC"})
+							}
+						}()
+						r := shared
+						if sys == resolve.PyPI {
+							r = newResolver(sys, lcD) // one resolver per goroutine over a shared client
+						}
+						<-start
+						for round := 0; round < 2; round++ {
+							for j := range roots {
+								i := (j + k + round) % len(roots)
+								g, err := r.Resolve(ctx, roots[i])
+								res[k] = append(res[k], ans{i, graphText(g, err)})
+							}
+						}
+					}(k)
+				}
+				close(start)
+				wg.Wait()
+				for k := 0; k < ng; k++ {
+					for _, a := range res[k] {
+						if a.text != seq[a.root] {
+							bad("differs-when-concurrent", a.root, firstDiff(seq[a.root], a.text))
+						}
+					}
+				}
+				if sd := snapshot(lcD, sys, u); sd != s0 {
+					bad("client-changed-by-concurrent-resolve", which, firstDiff(s0, sd))
+				}
 			}
 		}
 		ok := 0
